@@ -563,6 +563,17 @@ Proof.
   destruct (U2 x Hx Hne) as [_ Hb]. unfold qnth in Hb. lra.
 Qed.
 
+Lemma ns_conv_all :
+  B < P /\ P <= Qabs (qnth conv T) /\
+  (forall k, (0 <= k < N)%Z -> (h <= Z.abs (k - T))%Z -> Qabs (qnth conv k) <= B) /\
+  (forall k, (0 <= k < N)%Z -> (Z.abs (k - T) <= h)%Z ->
+     Qabs (qnth conv k) + inject_Z (Z.abs (k - T)) * dl <= Qabs (qnth conv T)) /\
+  (forall k, (0 <= k < N)%Z -> k <> T -> Qabs (qnth conv k) < Qabs (qnth conv T)).
+Proof.
+  destruct ns_floor as [F1 F2].
+  split; [exact F1|]. split; [exact F2|]. split; [exact ns_outside|]. split; [exact ns_drop|exact ns_max].
+Qed.
+
 Lemma ns_all : (T + 2 <= N)%Z ->
   B < P /\ P <= Qabs (qnth conv T) /\
   (forall k, (0 <= k < N)%Z -> (h <= Z.abs (k - T))%Z -> Qabs (qnth conv k) <= B) /\
@@ -699,7 +710,8 @@ Hypothesis scale_u_pos : forall h, 0 < scale_u h.
 Lemma noisy_step_addon a b t n sg eps q level :
   noise_within eps (step_signal a b t n) sg -> (32 <= t)%nat -> (t + 32 <= n)%nat ->
   4 * eps < Qabs (b - a) -> (1 <= level <= 5)%Z ->
-  noise_bound_u (2 ^ level) eps (scale_u (2 ^ level)) < level_thres sg None q level ->
+  ((2 <= length (level_peaks scale_u scale_w sg None level))%nat ->
+   noise_bound_u (2 ^ level) eps (scale_u (2 ^ level)) < level_thres sg None q level) ->
   (level_addon scale_u scale_w pvals absorb sg None q level = [Z.of_nat t] \/
    level_addon scale_u scale_w pvals absorb sg None q level = []) /\
   (level_thres sg None q level <= Qabs (qnth (conv_level scale_u scale_w sg None (2 ^ level)) (Z.of_nat t)) ->
@@ -707,16 +719,27 @@ Lemma noisy_step_addon a b t n sg eps q level :
 Proof.
   intros Hnz Ht Hn Hgap Hl Hthr. pose proof (pow2_le32 level Hl) as P2.
   destruct (noisy_step_level a b t n sg eps (2 ^ level) (scale_u (2 ^ level)) Hnz (scale_u_pos _)
-              ltac:(lia) ltac:(lia) ltac:(lia) Hgap) as [_ [_ [_ [_ [_ [_ [_ [K1 K2]]]]]]]].
-  rewrite level_addon_keep. split.
-  - apply K2. exact Hthr.
-  - intros Hle. apply K1; [exact Hthr|exact Hle].
+              ltac:(lia) ltac:(lia) ltac:(lia) Hgap) as [_ [_ [_ [_ [_ [Kin [_ [K1 K2]]]]]]]].
+  destruct (le_lt_dec 2 (length (level_peaks scale_u scale_w sg None level))) as [M|M].
+  - specialize (Hthr M). rewrite level_addon_keep. split.
+    + apply K2. exact Hthr.
+    + intros Hle. apply K1; [exact Hthr|exact Hle].
+  - assert (E : level_addon scale_u scale_w pvals absorb sg None q level = [Z.of_nat t]).
+    { unfold level_addon. unfold level_peaks in M. unfold conv_level in *. cbv zeta in Kin.
+      remember (find_local_peaks (haar_conv sg None (2 ^ level) (scale_u (2 ^ level)))) as pk eqn:Ep.
+      destruct pk as [|x [|y r]].
+      - destruct Kin.
+      - destruct Kin as [->|[]]. cbn [map]. rewrite fdr_thres_single. cbn [filter].
+        rewrite Qle_bool_0_abs. reflexivity.
+      - cbn [length] in M. lia. }
+    rewrite E. split; [left; reflexivity|intros _; reflexivity].
 Qed.
 
 Lemma noisy_step_seg a b t n sg eps q :
   noise_within eps (step_signal a b t n) sg -> (32 <= t)%nat -> (t + 32 <= n)%nat ->
   4 * eps < Qabs (b - a) ->
-  (forall l, (1 <= l <= 5)%Z -> noise_bound_u (2 ^ l) eps (scale_u (2 ^ l)) < level_thres sg None q l) ->
+  (forall l, (1 <= l <= 5)%Z -> (2 <= length (level_peaks scale_u scale_w sg None l))%nat ->
+     noise_bound_u (2 ^ l) eps (scale_u (2 ^ l)) < level_thres sg None q l) ->
   (exists l, (1 <= l <= 5)%Z /\
      level_thres sg None q l <= Qabs (qnth (conv_level scale_u scale_w sg None (2 ^ l)) (Z.of_nat t))) ->
   let r := haar_seg scale_u scale_w pvals absorb sg None q in
@@ -934,10 +957,14 @@ Qed.
 
 Lemma noisy_flat_addon eps c sg wt q level :
   flat_within eps c sg -> weights_ok sg wt -> 0 <= eps -> (0 <= level)%Z ->
-  level_noise_bound wt eps (2 ^ level) < level_thres scale_u scale_w pvals absorb sg wt q level ->
+  (level_peaks scale_u scale_w sg wt level <> [] ->
+   level_noise_bound wt eps (2 ^ level) < level_thres scale_u scale_w pvals absorb sg wt q level) ->
   level_addon scale_u scale_w pvals absorb sg wt q level = [].
 Proof.
-  intros Hf Hw He Hl Hthr. rewrite level_addon_keep. apply keep_ge_none. intros x Hx.
+  intros Hf Hw He Hl Hthr.
+  destruct (level_peaks scale_u scale_w sg wt level) as [|x0 r0] eqn:Ep.
+  { unfold level_addon. unfold level_peaks in Ep. rewrite Ep. reflexivity. }
+  specialize (Hthr ltac:(discriminate)). rewrite level_addon_keep. apply keep_ge_none. intros x Hx.
   destruct (peaks_sorted (conv_level scale_u scale_w sg wt (2 ^ level))) as [_ R]. specialize (R x Hx).
   unfold conv_level in R at 1. rewrite haar_conv_length in R.
   pose proof (noisy_flat_level eps c sg wt (2 ^ level) x Hf Hw He ltac:(pose proof (Z.pow_pos_nonneg 2 level ltac:(lia) Hl); lia) ltac:(lia)). lra.
@@ -945,7 +972,7 @@ Qed.
 
 Lemma noisy_flat_seg eps c sg wt q :
   flat_within eps c sg -> weights_ok sg wt -> sg <> [] ->
-  (forall l, (1 <= l <= 5)%Z ->
+  (forall l, (1 <= l <= 5)%Z -> level_peaks scale_u scale_w sg wt l <> [] ->
      level_noise_bound wt eps (2 ^ l) < level_thres scale_u scale_w pvals absorb sg wt q l) ->
   let n := Zlength_nat sg in
   let r := haar_seg scale_u scale_w pvals absorb sg wt q in
@@ -1038,4 +1065,170 @@ Proof.
   intros Hgap.
   assert (Gp : B < P) by (unfold B, P, noise_bound_w, peak_floor_w; nra).
   split; [exact Gp|]. intros k Hk Hf. pose proof (Hout k Hk Hf). lra.
+Qed.
+
+(* ---------- statements exported to Props/C11.v ---------- *)
+
+(* 2. the convolution of a noisy step at one half-width *)
+Lemma noisy_step_conv a b t n sg eps h scale :
+  noise_within eps (step_signal a b t n) sg -> 0 < scale ->
+  (1 <= h <= Z.of_nat t)%Z -> (Z.of_nat t + h <= Z.of_nat n)%Z ->
+  4 * eps < Qabs (b - a) ->
+  let T := Z.of_nat t in
+  let N := Z.of_nat n in
+  let conv := haar_conv sg None h scale in
+  let B := noise_bound_u h eps scale in
+  let P := peak_floor_u h (Qabs (b - a)) eps scale in
+  let dl := drop_per_bin_u (Qabs (b - a)) eps scale in
+  (forall k, (0 <= k < N)%Z -> Qabs (qnth conv k - (b - a) / scale * tentQ h T k) <= B) /\
+  B < P /\ P <= Qabs (qnth conv T) /\
+  (forall k, (0 <= k < N)%Z -> (h <= Z.abs (k - T))%Z -> Qabs (qnth conv k) <= B) /\
+  (forall k, (0 <= k < N)%Z -> (Z.abs (k - T) <= h)%Z ->
+     Qabs (qnth conv k) + inject_Z (Z.abs (k - T)) * dl <= Qabs (qnth conv T)) /\
+  (forall k, (0 <= k < N)%Z -> k <> T -> Qabs (qnth conv k) < Qabs (qnth conv T)).
+Proof.
+  intros Hnz Hs Hh Hn Hgap T N conv B P dl.
+  assert (Hstp : length (step_signal a b t n) = n) by (apply step_signal_length; lia).
+  split.
+  { intros k Hk.
+    pose proof (noise_conv_bound_u eps (step_signal a b t n) sg h scale k Hnz Hs) as Nb.
+    rewrite Hstp in Nb. specialize (Nb ltac:(lia) Hk).
+    rewrite (step_conv a b t n None h scale k I Hh Hn Hk) in Nb. cbn [step_amp] in Nb. exact Nb. }
+  destruct (Qlt_le_dec a b) as [L|L].
+  - apply (ns_conv_all a b t n sg eps h scale false (Qabs (b - a))); try assumption.
+    rewrite Qabs_pos by lra. unfold sgnQ. ring.
+  - apply (ns_conv_all a b t n sg eps h scale true (Qabs (b - a))); try assumption.
+    rewrite Qabs_neg by lra. unfold sgnQ. ring.
+Qed.
+
+(* the weaker "within d" form: if d bins of the clean tent's slope outweigh the noise at both
+   ends, 4 h eps < d D with 1 <= d <= h, every position at distance >= d is strictly smaller --
+   a consequence of the above, since then 4 eps < D already *)
+Lemma noisy_step_conv_d a b t n sg eps h scale d :
+  noise_within eps (step_signal a b t n) sg -> 0 < scale ->
+  (1 <= h <= Z.of_nat t)%Z -> (Z.of_nat t + h <= Z.of_nat n)%Z ->
+  (1 <= d <= h)%Z -> 4 * inject_Z h * eps < inject_Z d * Qabs (b - a) ->
+  forall k, (0 <= k < Z.of_nat n)%Z -> (d <= Z.abs (k - Z.of_nat t))%Z ->
+    Qabs (qnth (haar_conv sg None h scale) k) < Qabs (qnth (haar_conv sg None h scale) (Z.of_nat t)).
+Proof.
+  intros Hnz Hs Hh Hn Hd Hgap k Hk Hf.
+  assert (Hstp : length (step_signal a b t n) = n) by (apply step_signal_length; lia).
+  assert (He : 0 <= eps).
+  { apply (noise_eps_nonneg eps _ sg Hnz). intros C. rewrite C in Hstp. cbn in Hstp. lia. }
+  assert (G4 : 4 * eps < Qabs (b - a)).
+  { pose proof (Qabs_nonneg (b - a)) as A0.
+    assert (D1 : inject_Z d <= inject_Z h) by (rewrite <- Zle_Qle; lia).
+    assert (H0 : 0 < inject_Z h) by (apply inject_Z_pos; lia).
+    nra. }
+  destruct (noisy_step_conv a b t n sg eps h scale Hnz Hs Hh Hn G4) as [_ [_ [_ [_ [_ M]]]]].
+  apply M; [exact Hk|lia].
+Qed.
+
+(* 3. the local peaks of a noisy step at one half-width, and thresholds in the gap *)
+Lemma noisy_step_peaks a b t n sg eps h scale :
+  noise_within eps (step_signal a b t n) sg -> 0 < scale ->
+  (1 <= h <= Z.of_nat t)%Z -> (Z.of_nat t + h <= Z.of_nat n)%Z -> (Z.of_nat t + 2 <= Z.of_nat n)%Z ->
+  4 * eps < Qabs (b - a) ->
+  let T := Z.of_nat t in
+  let conv := haar_conv sg None h scale in
+  let peaks := find_local_peaks conv in
+  let B := noise_bound_u h eps scale in
+  let P := peak_floor_u h (Qabs (b - a)) eps scale in
+  In T peaks /\
+  (forall x, In x peaks -> x <> T -> (h <= Z.abs (x - T))%Z /\ Qabs (qnth conv x) <= B) /\
+  B < P /\ P <= Qabs (qnth conv T) /\
+  (forall tau, B < tau -> tau <= P -> keep_ge conv tau peaks = [T]) /\
+  (forall tau, B < tau -> tau <= Qabs (qnth conv T) -> keep_ge conv tau peaks = [T]) /\
+  (forall tau, B < tau -> keep_ge conv tau peaks = [T] \/ keep_ge conv tau peaks = []).
+Proof.
+  intros Hnz Hs Hh Hn Ht Hgap T conv peaks B P.
+  destruct (noisy_step_level a b t n sg eps h scale Hnz Hs Hh Hn Ht Hgap)
+    as [G1 [G2 [_ [_ [_ [Kin [Kout [K1 K2]]]]]]]].
+  split; [exact Kin|]. split; [exact Kout|]. split; [exact G1|]. split; [exact G2|].
+  split; [|split; [exact K1|exact K2]].
+  intros tau T1 T2. apply K1; [exact T1|]. eapply Qle_trans; [exact T2|exact G2].
+Qed.
+
+(* flat profile with bounded noise: everything in one statement *)
+Lemma noisy_flat_all (scale_u scale_w : Z -> Q) (pvals : Z -> list Q) (absorb : Z -> bool) :
+  (forall h, 0 < scale_u h) -> (forall h, 0 < scale_w h) ->
+  forall (eps c : Q) (sg : list Q) (wt : option (list Q)) (q : Q),
+  flat_within eps c sg -> weights_ok sg wt -> sg <> [] ->
+  let n := Zlength_nat sg in
+  let r := haar_seg scale_u scale_w pvals absorb sg wt q in
+  (forall h k, (1 <= h)%Z -> (0 <= k < n)%Z ->
+     Qabs (qnth (conv_level scale_u scale_w sg wt h) k) <= level_noise_bound scale_u scale_w wt eps h) /\
+  (forall level tau, (0 <= level)%Z -> level_noise_bound scale_u scale_w wt eps (2 ^ level) < tau ->
+     keep_ge (conv_level scale_u scale_w sg wt (2 ^ level)) tau (level_peaks scale_u scale_w sg wt level) = []) /\
+  ((forall l, (1 <= l <= 5)%Z -> level_peaks scale_u scale_w sg wt l <> [] ->
+      level_noise_bound scale_u scale_w wt eps (2 ^ l) < level_thres scale_u scale_w pvals absorb sg wt q l) ->
+   hr_breaks r = [] /\ hr_start r = [0%Z] /\ hr_end r = [(n - 1)%Z] /\ hr_size r = [n] /\
+   exists m, hr_mean r = [m] /\ Qabs (m - c) <= eps).
+Proof.
+  intros Pu Pw eps c sg wt q Hf Hw Hne n r.
+  assert (Hn : (0 < n)%Z) by (apply Zlength_pos, Hne).
+  assert (He : 0 <= eps).
+  { specialize (Hf 0%Z ltac:(unfold n, Zlength_nat in Hn; lia)).
+    pose proof (Qabs_nonneg (at_ sg 0 - c)). lra. }
+  split; [|split].
+  - intros h k Hh Hk. apply (noisy_flat_level scale_u scale_w Pu Pw eps c); assumption.
+  - intros level tau Hl Ht. apply keep_ge_none. intros x Hx.
+    destruct (peaks_sorted (conv_level scale_u scale_w sg wt (2 ^ level))) as [_ R].
+    unfold level_peaks in Hx. specialize (R x Hx).
+    unfold conv_level in R at 1. rewrite haar_conv_length in R.
+    pose proof (noisy_flat_level scale_u scale_w Pu Pw eps c sg wt (2 ^ level) x Hf Hw He
+                  ltac:(pose proof (Z.pow_pos_nonneg 2 level ltac:(lia) Hl); lia) ltac:(lia)). lra.
+  - intros Hthr. apply (noisy_flat_seg scale_u scale_w pvals absorb Pu Pw eps c); assumption.
+Qed.
+
+(* the property's numbers: steps between 0 and -1, +0.585 or +1 (height at least 0.585), at least
+   100 bins on each side; every noise vector with |e_i| <= 0.146 (4 * 0.146 < 0.585) *)
+Lemma noisy_step_property_numbers (scale_u scale_w : Z -> Q) :
+  (forall h, 0 < scale_u h) ->
+  forall (a b : Q) (t n : nat) (sg : list Q) (eps : Q) (level : Z),
+  noise_within eps (step_signal a b t n) sg -> (100 <= t)%nat -> (t + 100 <= n)%nat ->
+  585 # 1000 <= Qabs (b - a) -> eps <= 146 # 1000 -> (1 <= level <= 5)%Z ->
+  let T := Z.of_nat t in
+  let conv := conv_level scale_u scale_w sg None (2 ^ level) in
+  (forall k, (0 <= k < Z.of_nat n)%Z -> k <> T -> Qabs (qnth conv k) < Qabs (qnth conv T)) /\
+  (forall k, (0 <= k < Z.of_nat n)%Z -> Qabs (qnth conv T) <= Qabs (qnth conv k) -> (Z.abs (k - T) <= 5)%Z) /\
+  In T (level_peaks scale_u scale_w sg None level) /\
+  (forall x, In x (level_peaks scale_u scale_w sg None level) -> x <> T ->
+     (2 ^ level <= Z.abs (x - T))%Z /\
+     Qabs (qnth conv x) <= noise_bound_u (2 ^ level) eps (scale_u (2 ^ level)%Z) /\
+     Qabs (qnth conv x) < Qabs (qnth conv T)).
+Proof.
+  intros Pu a b t n sg eps level Hnz Ht Hn HD He Hl T conv.
+  pose proof (pow2_le32 level Hl) as P2.
+  assert (Hgap : 4 * eps < Qabs (b - a)) by lra.
+  destruct (noisy_step_level a b t n sg eps (2 ^ level) (scale_u (2 ^ level)%Z) Hnz (Pu _)
+              ltac:(lia) ltac:(lia) ltac:(lia) Hgap) as [_ [_ [_ [_ [M [Kin [Kout _]]]]]]].
+  assert (Hlenc : length (haar_conv sg None (2 ^ level) (scale_u (2 ^ level)%Z)) = n).
+  { rewrite haar_conv_length. destruct Hnz as [Hl' _]. rewrite Hl'. apply step_signal_length. lia. }
+  subst T conv. unfold level_peaks, conv_level. cbv zeta in M, Kin, Kout.
+  split; [exact M|]. split; [|split; [exact Kin|]].
+  - intros k Hk Hge. destruct (Z.eq_dec k (Z.of_nat t)) as [->|Hne]; [lia|].
+    specialize (M k Hk Hne). lra.
+  - intros x Hx Hne. destruct (Kout x Hx Hne) as [K1 K2]. split; [exact K1|]. split; [exact K2|].
+    apply M; [|exact Hne].
+    destruct (peaks_sorted (haar_conv sg None (2 ^ level) (scale_u (2 ^ level)%Z))) as [_ R].
+    specialize (R x Hx). rewrite Hlenc in R. lia.
+Qed.
+
+(* a decidable check of noise_within, for examples *)
+Lemma noise_within_check eps c sg :
+  length sg = length c ->
+  forallb (fun p => Qle_bool (Qabs (fst p - snd p)) eps) (combine sg c) = true ->
+  noise_within eps c sg.
+Proof.
+  intros Hl Hb. split; [exact Hl|]. intros i Hi. unfold at_.
+  assert (G : forall (s cl : list Q) (j : nat), length s = length cl ->
+            forallb (fun p => Qle_bool (Qabs (fst p - snd p)) eps) (combine s cl) = true ->
+            (j < length cl)%nat -> Qabs (nth j s 0 - nth j cl 0) <= eps).
+  { induction s as [|x s IH]; intros [|y cl] j H1 H2 H3; cbn [length] in *; try lia.
+    cbn [combine forallb fst snd] in H2. apply andb_true_iff in H2. destruct H2 as [A B].
+    destruct j as [|j]; cbn [nth].
+    - apply Qle_bool_iff, A.
+    - apply IH; [lia|exact B|lia]. }
+  apply G; [exact Hl|exact Hb|lia].
 Qed.
